@@ -24,6 +24,7 @@ func main() {
 	harness.Main("C04", "exploration",
 		harness.Layer{Name: "mem", Run: func(h *harness.H) { run(h, "mem", h.N(400, 20000)) }},
 		harness.Layer{Name: "rewrite", Run: func(h *harness.H) { run(h, "rewrite", h.N(300, 15000)) }},
+		harness.Layer{Name: "domiter", Run: domiter},
 	)
 }
 
